@@ -2,8 +2,10 @@ mod ctx;
 mod gen;
 mod kind;
 mod ops_ff;
+mod ops_graph;
 mod ops_ic;
 mod ops_prim;
+mod ops_strict;
 mod raw;
 mod rng;
 mod wire;
@@ -34,6 +36,11 @@ fn main() {
         "prim" => ops_prim::PrimOps::<VecKind>::run(&mut c, count),
         "ff" => ops_ff::FfOps::<VecKind>::run(&mut c, count),
         "ic" => ops_ic::IcOps::<VecKind>::run(&mut c, count),
+        "hg" => ops_strict::StrictOps::<VecKind>::run_hg(&mut c, count),
+        "oh" => ops_strict::StrictOps::<VecKind>::run_oh(&mut c, count),
+        "graph" => ops_graph::GraphOps::<VecKind>::run_graph(&mut c, count),
+        "eval" => ops_graph::GraphOps::<VecKind>::run_eval(&mut c, count),
+        "law" => ops_strict::StrictOps::<VecKind>::run_law(&mut c, count),
         g => {
             eprintln!("unknown group {}", g);
             std::process::exit(2);
